@@ -232,7 +232,7 @@ def crash_detail(rc, stderr):
         return 'asan:allocation-size-too-big'
     if 'hard rss limit' in stderr.lower():
         return 'asan:rss-limit-exceeded'
-    if rc == -14:
+    if rc == -14 or rc == -999:
         return 'hang:watchdog'
     if rc < 0:
         return 'signal%d' % (-rc)
@@ -327,17 +327,19 @@ def class_key(cls):
     return '/'.join(parts[:3])
 
 
-def minimise(plan, cfg, profile_prop, target_cls, budget=400):
+def minimise(plan, cfg, profile_prop, target_cls, budget=400, wall=150.0):
     """Greedy ddmin over the op list (and race tasks), then argument simplification; a candidate is accepted only if it
     fails with the same violation class (property + oracle + triggering op kind)."""
     want = class_key(target_cls)
     calls = [0]
 
+    t_min = time.time()
+
     def test(cand):
-        if calls[0] >= budget:
+        if calls[0] >= budget or time.time() - t_min > wall:
             return False
         calls[0] += 1
-        o = run_plan(cfg, cand)
+        o = run_plan(cfg, cand, timeout=100)
         _, cls, _ = outcome_class(profile_prop, cand, o, cfg)
         return class_key(cls) == want
 
@@ -526,12 +528,19 @@ def main(argv):
                 found.append(dict(cfg=b.cfg, idx=idx, prop=r['v']['prop'], cls=r['v']['cls'], digest=r['d'], msg=r['v']['msg'], crash=False))
             for o in r.get('o', []):
                 other_props[o['cls'].split('/')[0] + '/' + o['cls'].split('/')[1]] += 1
-        for c in b.crashes:
+        triaged = 0
+        for c in sorted(b.crashes, key=lambda c: c['idx']):
+            if triaged >= 24 or time.time() - t_start > (900 if tier == 'quick' else 3600):
+                # every abnormal end is counted; only the first ones (by run index) are re-run and classified - a change that
+                # breaks every run must not turn the check into hours of re-execution
+                extra['abnormal_ends_not_triaged'] = extra.get('abnormal_ends_not_triaged', 0) + 1
+                continue
+            triaged += 1
             plan = gen_plan(b.cfg, prop, tier, seed, c['idx'])
-            o = run_plan(b.cfg, plan, trace=True)
+            o = run_plan(b.cfg, plan, trace=True, timeout=150)
             p, cls, d = outcome_class(prop, plan, o, b.cfg)
             tries = 0
-            while cls == 'ok' and b.cfg == 'ts' and tries < 4:
+            while cls == 'ok' and b.cfg == 'ts' and tries < 4 and o['rc'] != -999:
                 # ThreadSanitizer keeps a bounded, pseudo-randomly evicted access history per memory word: whether a given race
                 # is *reported* can depend on heap layout. The interleaving itself is exactly the recorded one; retry the report.
                 o = run_plan(b.cfg, plan, trace=True)
